@@ -15,13 +15,13 @@ T = {
  'C04': ('proof', 'polynomial normal forms; sign-convention agreement across call sites',
          'fkM/fkMy1y2 proved equal to the kinetic-energy Hessian under the kernel\'s own offset convention; the convention is compared with the laminate offset convention at the Panel.calc_kM call sites (F-C04-1, repaired in /repo).',
          'C10; C01 offset convention', '3/C04'),
- 'C05': ('other', 'sibling cross-check + CFG must-pass-through on solver pencil/transform, reduce/expand pairing; flow-sensitive value sets for remove_null_cols; documented load-case table vs pencil',
+ 'C05': ('other', 'sibling cross-check + CFG must-pass-through on solver pencil/transform, reduce/expand pairing; term-domain abstract interpretation (vcheck/termexec.py) and flow-sensitive value sets for remove_null_cols; documented load-case table vs pencil',
          'necessary structural clauses of the buckling solver (pencil roles and eigenvalue transform, null-column reduction/expansion pairing, column agreement) on the three sibling implementations; accuracy/order of ARPACK/LAPACK results is NOT decided.',
          'scipy eigsh/eigh semantics as documented', '3/C05'),
- 'C06': ('other', 'CFG typestate (LIFO of reductions), sibling cross-check; flow-sensitive value sets for remove_null_cols',
-         'necessary structural clauses of the frequency solver: pencil/transform table, LIFO undo of reductions, one permutation/mask applied to values and vectors; numerical accuracy NOT decided.',
+ 'C06': ('other', 'CFG typestate (LIFO of reductions), sibling cross-check; term-domain abstract interpretation and flow-sensitive value sets for remove_null_cols',
+         'necessary structural clauses of the frequency solver: pencil/transform table, LIFO undo of reductions, the same index arrays (one of them from a sort) applied to values and vectors in the same order; numerical accuracy NOT decided.',
          'scipy eigs/eig semantics as documented', '3/C06'),
- 'C07': ('other', 'linear-form agreement between field and shape-function kernels; layout domain; call binding; flow-sensitive value sets for solve/static',
+ 'C07': ('other', 'linear-form agreement between field and shape-function kernels; layout domain; call binding; flow-sensitive value sets for solve/static; term-domain abstract interpretation of remove_null_cols',
          'fext.c = sum force*reported displacement follows from the proved agreement cfg <-> cfuvw; offsets/inc/dispatch rules on calc_fext of Panel, PanelAssembly, StiffPanelBay; sparse.solve reduce/scatter pairing. spsolve accuracy NOT decided.',
          'C10 function tables', '3/C07'),
  'C08': ('proof', 'symbolic differentiation of extracted polynomials (Jacobian identity between code artefacts)',
@@ -70,7 +70,8 @@ for pid in sorted(T):
     checks.append({'property_id': pid, 'quick_cmd': './check %s --tier quick' % pid, 'thorough_cmd': './check %s --tier thorough' % pid,
                    'evidence_file': 'evidence/%s.json' % pid, 'replay_cmd_template': './check %s --replay {path}' % pid,
                    'engine': 'vcheck', 'level_claimed': {'category': level, 'text': text, 'design_ref': 'DESIGN.md section ' + ref},
-                   'level_note': note or 'python3 ast; source-level reasoning only', 'technique': 'static analysis: ' + tech})
+                   'level_note': note or 'python3 ast; source-level reasoning only',
+                   'technique': 'static analysis: ' + tech + ('' if pid == 'C10' else '; a Python function that differs from the confirmed source is first compared with it by normal-form translation validation (vcheck/equiv.py): proved equal -> the rules read the confirmed version, otherwise the current one')})
 for pid, why in NA.items():
     na.append({'property_id': pid, 'reason': why})
 man = {'version': 1,
